@@ -335,6 +335,17 @@ def const_buffers_model(lengths, raw=False):
       other = sg.input(f'in_{i}', (1, 1))
       sg.output(sg.binary('ADD', x, other, f'y_{i}'))
       continue
+    if raw and int(n) % 4:
+      # an int8 constant of exactly n bytes, read by a CAST (an op the
+      # quantizer does not know and leaves alone)
+      c = sg.const(f'c_{i}', (np.arange(int(n)) % 100 + i).astype(np.int8))
+      y = sg.act(f'y_{i}', (int(n),))
+      o = S.CastOptionsT()
+      o.inDataType = TT.INT8
+      o.outDataType = TT.FLOAT32
+      sg._op(BO.CAST, [c], [y], S.BuiltinOptions.CastOptions, o)
+      sg.output(y)
+      continue
     k = int(n) // 4 if raw else (int(n) + 3) // 4
     if k == 0:
       buf = mb.new_buffer(b'')
